@@ -183,9 +183,13 @@ func (propC02) Gen(r *Rng, run uint64, tier string) *Plan {
 	suffix := Pick(r.Sub("suffix"), c02Suffixes)
 	p.Tags["suffix"] = suffix
 	p.Query = c02Query(ms, kind, rng, off, suffix)
+	offB := off
 	if kind == "metric_binop" {
-		p.Query = c02Query(ms, "metric_range", rng, off, suffix) + " + " + c02Query(msB, "metric_range", rng, off, "")
+		// the two operands carry different offsets: each selection has its own window
+		offB = []int64{0, 0, 10 * sec, 60 * sec, 300 * sec}[r.Intn(5)]
+		p.Query = c02Query(ms, "metric_range", rng, off, suffix) + " + " + c02Query(msB, "metric_range", rng, offB, "")
 	}
+	p.Tags["offset_b"] = fmt.Sprint(offB)
 	switch kind {
 	case "log_range":
 	case "log_instant":
@@ -276,9 +280,10 @@ func (propC02) Check(t *testing.T, p *Plan, st *Stats) *Violation {
 	mustUnJSON(p.Tags["matchers"], &ms)
 	mustUnJSON(p.Tags["matchers_b"], &msB)
 	kind := p.Tags["kind"]
-	var rng, off int64
+	var rng, off, offB int64
 	fmt.Sscan(p.Tags["range"], &rng)
 	fmt.Sscan(p.Tags["offset"], &off)
+	fmt.Sscan(p.Tags["offset_b"], &offB)
 	viol := func(clause, exp, obs string) *Violation {
 		return &Violation{Property: "C02", Clause: clause, Expected: exp, Observed: obs, Detail: "query " + p.Query + " kind=" + kind}
 	}
@@ -391,6 +396,31 @@ func (propC02) Check(t *testing.T, p *Plan, st *Stats) *Violation {
 		sinceLo, sinceHi, until = p.Params.Start-rng-off+lookback, p.Params.Start-rng-off, p.Params.End-off
 	}
 	sinceLo, sinceHi, until = floorSec(sinceLo), floorSec(sinceHi), floorSec(until)
+	type window struct{ lo, hi, until int64 }
+	winA := window{sinceLo, sinceHi, until}
+	winB := winA
+	if kind == "metric_binop" {
+		b := floorSec(p.Params.Start - rng - offB)
+		winB = window{b, b, floorSec(p.Params.End - offB)}
+	}
+	inA, inB := map[string]bool{}, map[string]bool{}
+	for _, id := range RefSelect(&p.World, ms) {
+		inA[id] = true
+	}
+	if kind == "metric_binop" {
+		for _, id := range RefSelect(&p.World, msB) {
+			inB[id] = true
+		}
+	}
+	// Each selection that selects a container asks for its own window; which of
+	// the container's requests belongs to which selection is not prescribed.
+	pending := map[string][]window{}
+	for id := range inA {
+		pending[id] = append(pending[id], winA)
+	}
+	for id := range inB {
+		pending[id] = append(pending[id], winB)
+	}
 	for _, oc := range o.Opens {
 		op := oc.Opts
 		if !op.ShowStdout || !op.ShowStderr || !op.Timestamps || op.Follow || op.Details || (op.Tail != "all" && op.Tail != "") {
@@ -401,12 +431,25 @@ func (propC02) Check(t *testing.T, p *Plan, st *Stats) *Violation {
 		if errS != nil || errU != nil || !okS || !okU {
 			return viol("C02(c:window)", "since and until as timestamps the daemon understands", fmt.Sprintf("since=%q until=%q", op.Since, op.Until))
 		}
-		if s < sinceLo || s > sinceHi {
-			return viol("C02(c:window)", fmt.Sprintf("since = start of the query window truncated to whole seconds = %d..%d", sinceLo/sec, sinceHi/sec), fmt.Sprintf("since=%q (%d ns)", op.Since, s))
+		ws := pending[oc.ID]
+		found := -1
+		for i, w := range ws {
+			if s >= w.lo && s <= w.hi && u == w.until {
+				found = i
+				break
+			}
 		}
-		if u != until {
-			return viol("C02(c:window)", fmt.Sprintf("until = end of the query window truncated to whole seconds = %d", until/sec), fmt.Sprintf("until=%q (%d ns)", op.Until, u))
+		if found < 0 {
+			if len(ws) == 0 {
+				continue // already reported by (b)
+			}
+			w := ws[0]
+			if s < w.lo || s > w.hi {
+				return viol("C02(c:window)", fmt.Sprintf("since = start of the query window truncated to whole seconds = %d..%d (until %d)", w.lo/sec, w.hi/sec, w.until/sec), fmt.Sprintf("since=%q (%d ns), until=%q", op.Since, s, op.Until))
+			}
+			return viol("C02(c:window)", fmt.Sprintf("until = end of the query window truncated to whole seconds = %d", w.until/sec), fmt.Sprintf("until=%q (%d ns)", op.Until, u))
 		}
+		pending[oc.ID] = append(ws[:found:found], ws[found+1:]...)
 	}
 	// (e) evaluation succeeds.
 	if o.Failed {
